@@ -23,7 +23,8 @@ PROP = dict(
     assumptions=[
         "the grammar is outside the model: 'parser.Parse is total' and 'print / re-parse / print identity of statements' are established only for the inputs explored (all four mode combinations of every generated text), not proved",
         "String() exists only on query expressions (SELECT queries, clauses, tables, values); for other statements every outermost printable node is round-tripped inside a SELECT context of its kind",
-        "evaluation identity is compared for generated SELECT-without-FROM expressions over literals, variables and side-effect-free functions",
+        "evaluation identity is compared for generated SELECT-without-FROM expressions over literals, variables and side-effect-free functions, and (query.Select, header labels + records) for generated SELECTs and a fixed list of boundary-literal SELECTs (every window frame shape with offsets 0/1/2/1000000, LIMIT/OFFSET/FETCH 0, one-element IN lists ...) over two fixed tables; records are compared as a sequence only where the ORDER BY is total, else as a multiset; SELECTs that cannot be evaluated are compared structurally (tree parsed from the printed text = printed tree up to positions and spellings)",
+        "termination: every input is first scanned and parsed in child processes (ulimit -v 800 MB, 20 s without progress = not terminating); an input a child dies on (twice) is reported as scanner-nontermination / parse-nontermination and left out of the in-process runs",
     ],
     needs_csvq=False,
     level_text="Proof (partial, as planned in DESIGN.md section 5): 21 Coq theorems/examples (Properties/C18.v) about an executable model of the complete hand-written scanner (Model/Lex.v: both quoting modes, prepared-statement mode, comments, numbers incl. int64/float64 limits, operators, variables/flags/environment variables/runtime information, external commands, identifiers/keywords/function classes with Unicode case folding, constants/URLs/table functions, string and identifier literals with escapes) and of option.EscapeString/UnescapeString/EscapeIdentifier/UnescapeIdentifier/Quote* (Model/Escape.v), for ALL texts, configurations and modes: the scanner never runs out of fuel = input length + 1 (C18_scan_total), every token but EOF consumes at least one code point (C18_scan_progress, C18_token_count), the line/char of every token, lexical error and EOF is a position of the text (C18_scan_positions, C18_positions_numeric, C18_stream_ok), UnescapeString inverts EscapeString and the identifier pair likewise (C18_unescape_escape_string/_identifier; false for the double quotation mark as quote: ..._any_quote_refuted), and every literal, quoted identifier and enclosed environment variable that String() prints is scanned back to exactly itself at the right position in every mode (C18_scan_quoted_string/_identifier/_envvar; the side condition on the following rune is necessary: ..._any_rest_refuted). The model is tied to the code by comparing, inside Coq, the token streams of parser.Scanner and the outputs of the option functions with the model on random code-point strings, token soups, mutated valid queries, a grammar-based corpus and the inputs of the pinned parser tests in all four mode combinations. NOT proved (LALR grammar not modelled): parser.Parse returning without panic inside a time bound with error positions inside the input, print/re-parse/print identity of every printable node and evaluation identity are checked differentially on the same inputs on every run.",
